@@ -1,7 +1,11 @@
 package rules
 
 import (
+	"fmt"
 	"go/token"
+	"go/types"
+	"sort"
+	"strings"
 
 	"verifchk/internal/an"
 
@@ -17,6 +21,11 @@ func init() {
 
 func runC05(c *an.Ctx) {
 	r05a(c)
+	r05b(c)
+	r05c(c)
+	r05d(c)
+	r05e(c)
+	r05f(c)
 }
 
 // R05a: verdict finality in constraint.Attributes.Satisfy.
@@ -97,4 +106,529 @@ func lastPos(b *ssa.BasicBlock) token.Pos {
 		}
 	}
 	return b.Parent().Pos()
+}
+
+func isNumericOrResources(t types.Type) bool {
+	switch u := t.Underlying().(type) {
+	case *types.Basic:
+		return u.Info()&types.IsNumeric != 0
+	case *types.Slice:
+		return strings.HasSuffix(u.Elem().String(), "mesos-go/api/v1/lib.Resource")
+	case *types.Pointer:
+		return isNumericOrResources(u.Elem())
+	case *types.Struct:
+		if u.NumFields() == 0 {
+			return false
+		}
+		for i := 0; i < u.NumFields(); i++ {
+			b, ok := u.Field(i).Type().Underlying().(*types.Basic)
+			if !ok || b.Info()&types.IsNumeric == 0 {
+				return false
+			}
+		}
+		return true
+	}
+	return false
+}
+
+// quantityLeaves: numeric (or []Resource) roots of the backward slice of v; calls of
+// (Ranges).Min are leaves (an allocated port).
+func quantityLeaves(v ssa.Value) map[string]an.Leaf {
+	out := map[string]an.Leaf{}
+	ls := an.BackSlice(v, an.SliceOpts{LeafCall: func(n string, _ *ssa.Call) bool {
+		return strings.HasSuffix(n, "mesos-go/api/v1/lib.Ranges).Min")
+	}})
+	for _, l := range ls {
+		switch l.Kind {
+		case "field":
+			t := l.Val.Type()
+			if _, isAddr := l.Val.(*ssa.FieldAddr); isAddr {
+				t = t.Underlying().(*types.Pointer).Elem()
+			}
+			if _, isAddr := l.Val.(*ssa.IndexAddr); isAddr {
+				t = t.Underlying().(*types.Pointer).Elem()
+			}
+			if isNumericOrResources(t) {
+				out["field:"+l.Path] = l
+			}
+		case "call":
+			out[fmt.Sprintf("call:Min@%d", l.Val.Pos())] = l
+		}
+	}
+	return out
+}
+
+// R05b: everything put into the Mesos resource request of a task is also subtracted from the
+// remaining offer.
+func r05b(c *an.Ctx) {
+	c.Rule("R05b", "task builder: every quantity added to the resource request (Resources.Add/Add1) is also passed to Resources.Subtract on the remaining offer", 5)
+	fn := c.MustFn("core/task", "makeTaskForMesosResources")
+	if fn == nil {
+		return
+	}
+	const resT = "mesos-go/api/v1/lib.Resources)."
+	var reqArgs, subArgs []ssa.Value
+	var remParam *ssa.Parameter
+	for _, ci := range an.Calls(fn, func(n string, _ ssa.CallInstruction) bool { return strings.Contains(n, resT) }) {
+		cc := ci.Common()
+		recv := cc.Args[0]
+		m := an.MethodName(cc)
+		// is the receiver the spilled parameter (remaining offer) or a fresh local (request)?
+		isParam := false
+		if al, ok := recv.(*ssa.Alloc); ok {
+			for _, r := range *al.Referrers() {
+				if st, ok := r.(*ssa.Store); ok && st.Addr == al {
+					if p, ok := st.Val.(*ssa.Parameter); ok {
+						isParam = true
+						remParam = p
+					}
+				}
+			}
+		}
+		switch {
+		case (m == "Add" || m == "Add1") && !isParam:
+			reqArgs = append(reqArgs, cc.Args[1:]...)
+		case (m == "Subtract" || m == "Subtract1") && isParam:
+			subArgs = append(subArgs, cc.Args[1:]...)
+		}
+	}
+	if len(reqArgs) == 0 || remParam == nil {
+		c.Lost("resource request Add/Add1 calls or Subtract on the remaining-offer parameter in makeTaskForMesosResources")
+		return
+	}
+	req := map[string]an.Leaf{}
+	sub := map[string]an.Leaf{}
+	for _, a := range reqArgs {
+		for k, l := range quantityLeaves(a) {
+			req[k] = l
+		}
+	}
+	for _, a := range subArgs {
+		for k, l := range quantityLeaves(a) {
+			sub[k] = l
+		}
+	}
+	keys := make([]string, 0, len(req))
+	for k := range req {
+		keys = append(keys, k)
+	}
+	sort.Strings(keys)
+	minOrd := 0
+	for _, k := range keys {
+		l := req[k]
+		c.Subject()
+		_, ok := sub[k]
+		name := k
+		if l.Kind == "call" {
+			minOrd++
+			name = fmt.Sprintf("call:Ranges.Min#%d", minOrd)
+		}
+		if ok {
+			c.Ob("core/task.makeTaskForMesosResources|"+name, l.Val.Pos(), true, "requested quantity is subtracted from the remaining offer")
+		} else {
+			c.Ob("core/task.makeTaskForMesosResources|"+name, l.Val.Pos(), false,
+				"quantity %s is added to the task's resource request but never subtracted from the remaining offer: a second task matched on the same offer is checked against resources already promised", name)
+		}
+	}
+}
+
+// R05c: every call of the task builder is dominated by successful attribute and resource checks
+// on the same offer / descriptor / wants / remaining resources.
+func r05c(c *an.Ctx) {
+	c.Rule("R05c", "every call of makeTaskForMesosResources is dominated by Attributes.Satisfy==true and Resources.Satisfy==true on the same offer, descriptor, wants and remaining resources", 2)
+	sites := c.SitesNamed("core/task.makeTaskForMesosResources")
+	ord := 0
+	for _, s := range sites {
+		c.Subject()
+		c.Mark(s.Fn)
+		ord++
+		args := s.Call.Common().Args
+		if len(args) < 6 {
+			c.Ob(fmt.Sprintf("call#%d|signature", ord), s.Call.Pos(), false, "unexpected signature of makeTaskForMesosResources (rule needs offer, descriptor, wants, remaining at positions 1,2,3,5)")
+			continue
+		}
+		offer, desc, wants, remaining := args[1], args[2], args[3], args[5]
+		blk := s.Call.Block()
+		attrOK, resOK := false, false
+		why := []string{}
+		for _, ci := range an.Calls(s.Fn, func(n string, _ ssa.CallInstruction) bool { return strings.HasSuffix(n, ").Satisfy") }) {
+			call, isCall := ci.(*ssa.Call)
+			if !isCall || !an.Dominates(ci, s.Call) || !an.KnownTrue(blk, call) {
+				continue
+			}
+			n := an.CalleeName(ci.Common())
+			a := ci.Common().Args
+			switch n {
+			case "(core/task/constraint.Attributes).Satisfy":
+				// receiver: offer.Attributes of the same offer; arg: constraints[descriptor]
+				sameOffer := false
+				if base := an.FieldBase(an.Strip(a[0])); base != nil && an.SameVar(base, offer) {
+					sameOffer = true
+				}
+				sameDesc := false
+				if lk, ok := an.Strip(a[1]).(*ssa.Lookup); ok && an.SameVar(lk.Index, desc) {
+					sameDesc = true
+				}
+				if sameOffer && sameDesc {
+					attrOK = true
+				} else {
+					why = append(why, fmt.Sprintf("Attributes.Satisfy at %s checks a different offer/descriptor (sameOffer=%v sameDescriptor=%v)", c.PosStr(ci.Pos()), sameOffer, sameDesc))
+				}
+			case "(core/task.Resources).Satisfy":
+				if an.SameVar(a[0], remaining) && an.SameVar(a[1], wants) {
+					resOK = true
+				} else {
+					why = append(why, fmt.Sprintf("Resources.Satisfy at %s checks different resources/wants", c.PosStr(ci.Pos())))
+				}
+			}
+		}
+		k := fmt.Sprintf("%s|makeTaskForMesosResources#%d", c.RelName(an.OutermostParent(s.Fn)), ord)
+		c.Ob(k+"|attributes", s.Call.Pos(), attrOK, "task build must be dominated by a successful Attributes.Satisfy(constraints[descriptor]) on the same offer %s", strings.Join(why, "; "))
+		c.Ob(k+"|resources", s.Call.Pos(), resOK, "task build must be dominated by a successful Resources(remaining).Satisfy(wants) on the same values %s", strings.Join(why, "; "))
+	}
+}
+
+// R05d: port discipline in the task builder.
+func r05d(c *an.Ctx) {
+	c.Rule("R05d", "every port taken with Ranges.Min() comes from a fresh read of the remaining offer and is subtracted from it before any other port is taken", 2)
+	fn := c.MustFn("core/task", "makeTaskForMesosResources")
+	if fn == nil {
+		return
+	}
+	isMin := func(n string) bool { return strings.HasSuffix(n, "mesos-go/api/v1/lib.Ranges).Min") }
+	mins := an.Calls(fn, func(n string, _ ssa.CallInstruction) bool { return isMin(n) })
+	subs := an.Calls(fn, func(n string, _ ssa.CallInstruction) bool {
+		return strings.HasSuffix(n, "mesos-go/api/v1/lib.Resources).Subtract") || strings.HasSuffix(n, "mesos-go/api/v1/lib.Resources).Subtract1")
+	})
+	var remaining *ssa.Parameter
+	for _, p := range fn.Params {
+		if strings.HasSuffix(p.Type().String(), "mesos-go/api/v1/lib.Resources") {
+			remaining = p
+		}
+	}
+	if remaining == nil {
+		c.Lost("remaining-offer parameter of type mesos.Resources in makeTaskForMesosResources")
+		return
+	}
+	minInstrs := []ssa.Instruction{}
+	for _, m := range mins {
+		minInstrs = append(minInstrs, m)
+	}
+	for i, m := range mins {
+		c.Subject()
+		mc := m.(*ssa.Call)
+		key := fmt.Sprintf("core/task.makeTaskForMesosResources|Ranges.Min#%d", i+1)
+		// (0) receiver derives from resources.Ports(remaining...)
+		var portsCall *ssa.Call
+		recvLeaves := an.BackSlice(mc.Call.Args[0], an.SliceOpts{LeafCall: func(n string, _ *ssa.Call) bool {
+			return strings.HasSuffix(n, "mesos-go/api/v1/lib/resources.Ports")
+		}})
+		for _, l := range recvLeaves {
+			if l.Kind == "call" {
+				pc := l.Val.(*ssa.Call)
+				// its argument must be the remaining parameter
+				for _, al := range an.BackSlice(pc.Call.Args[0], an.SliceOpts{}) {
+					if al.Kind == "param" && al.Val == remaining {
+						portsCall = pc
+					}
+				}
+			}
+		}
+		c.Ob(key+"|from-remaining-offer", m.Pos(), portsCall != nil, "the port candidates must be read from the remaining-offer parameter via resources.Ports")
+		// (1) a Subtract on remaining of this very port dominates... follows the Min on all paths before another Min
+		var mySub ssa.Instruction
+		for _, s := range subs {
+			cc := s.Common()
+			if al, ok := cc.Args[0].(*ssa.Alloc); !ok || an.SpilledParam(al) != remaining {
+				continue
+			}
+			for _, a := range cc.Args[1:] {
+				for _, l := range an.BackSlice(a, an.SliceOpts{LeafCall: func(n string, _ *ssa.Call) bool { return isMin(n) }}) {
+					if l.Kind == "call" && l.Val == mc && an.Dominates(m, s) {
+						mySub = s
+					}
+				}
+			}
+		}
+		if mySub == nil {
+			c.Ob(key+"|subtracted", m.Pos(), false, "the allocated port is never subtracted from the remaining offer: the next allocation can hand out the same port")
+			continue
+		}
+		c.Ob(key+"|subtracted", m.Pos(), true, "port is subtracted at %s", c.PosStr(mySub.Pos()))
+		// (2) no path from this Min to any Min (incl. itself via a back edge) avoiding the Subtract
+		leak := false
+		for _, other := range minInstrs {
+			if an.CanReachAvoiding(m, other, []ssa.Instruction{mySub}) {
+				leak = true
+			}
+		}
+		c.Ob(key+"|subtract-before-next-min", m.Pos(), !leak, "another Min() is reachable from this one without passing its Subtract: two allocations can yield the same port")
+		// (3) after the subtract, the next Min must re-read the offer: every path Subtract -> Min' passes Min's own Ports call
+		if portsCall != nil {
+			stale := an.CanReachAvoiding(mySub, m, []ssa.Instruction{portsCall})
+			c.Ob(key+"|fresh-read", m.Pos(), !stale, "this Min() can be reached again after a Subtract without re-reading the remaining offer (stale candidate set)")
+		}
+	}
+}
+
+// R05e: override direction of constraint merging.
+func r05e(c *an.Ctx) {
+	c.Rule("R05e", "Constraints.MergeParent: receiver is the nearer definition, argument the farther; inside, receiver entries override", 4)
+	classify := func(v ssa.Value) string {
+		ls := an.BackSlice(v, an.SliceOpts{LeafCall: func(n string, _ *ssa.Call) bool {
+			return strings.HasSuffix(n, ").getConstraints") || strings.HasSuffix(n, ").GetParentRole")
+		}})
+		own, parent := false, false
+		for _, l := range ls {
+			switch {
+			case (l.Kind == "field" || l.Kind == "via") && (strings.HasSuffix(l.Path, "Descriptor.RoleConstraints") || strings.HasSuffix(l.Path, "roleBase.Constraints")):
+				own = true
+			case (l.Kind == "field" || l.Kind == "via") && strings.HasSuffix(l.Path, "Class.Constraints"):
+				parent = true
+			case l.Kind == "call":
+				parent = true
+			}
+		}
+		switch {
+		case own && !parent:
+			return "near"
+		case parent && !own:
+			return "far"
+		case own && parent:
+			return "mixed"
+		}
+		return "unknown"
+	}
+	for i, s := range c.SitesNamed("(core/task/constraint.Constraints).MergeParent") {
+		c.Mark(s.Fn)
+		a := s.Call.Common().Args
+		r, p := classify(a[0]), classify(a[1])
+		key := fmt.Sprintf("%s|MergeParent#%d", c.RelName(an.OutermostParent(s.Fn)), i+1)
+		if r == "unknown" || p == "unknown" || r == "mixed" || p == "mixed" {
+			c.Assume(fmt.Sprintf("R05e: MergeParent site at %s has operands of unclassified provenance (%s,%s); not decided", c.PosStr(s.Call.Pos()), r, p))
+			continue
+		}
+		c.Subject()
+		c.Ob(key, s.Call.Pos(), r == "near" && p == "far", "receiver=%s argument=%s: the nearer constraints must be the receiver (they override), the farther ones the argument", r, p)
+	}
+	// body: entries written into the result inside a loop derive from the receiver
+	fn := c.MustFn("core/task/constraint", "Constraints.MergeParent")
+	if fn == nil || len(fn.Params) != 2 {
+		return
+	}
+	c.Subject()
+	recv, par := fn.Params[0], fn.Params[1]
+	okOverride, bad := false, false
+	an.Instrs(fn, func(in ssa.Instruction) {
+		st, ok := in.(*ssa.Store)
+		if !ok {
+			return
+		}
+		if _, isIdx := st.Addr.(*ssa.IndexAddr); !isIdx || !an.InLoop(st.Block()) {
+			return
+		}
+		fromRecv, fromPar := false, false
+		for _, l := range an.BackSlice(st.Val, an.SliceOpts{}) {
+			if l.Kind == "param" && l.Val == recv {
+				fromRecv = true
+			}
+			if l.Kind == "param" && l.Val == par {
+				fromPar = true
+			}
+		}
+		// varargs array stores for append are IndexAddr on a fresh [1]T alloc: also fine to classify
+		if fromRecv && !fromPar {
+			okOverride = true
+		}
+		if fromPar && !fromRecv {
+			bad = true
+		}
+	})
+	c.Ob("core/task/constraint.Constraints.MergeParent|override-from-receiver", fn.Pos(), okOverride && !bad,
+		"inside the merge loop, entries written into the merged result must come from the receiver (nearer) only (fromReceiver=%v, fromParentOnly=%v)", okOverride, bad)
+	r05eRole(c)
+}
+
+// R05f: unused offers are declined.
+func r05f(c *an.Ctx) {
+	c.Rule("R05f", "the decline set starts with every offer, is reduced only by the task builder, and is sent unconditionally (modulo emptiness)", 2)
+	fn := c.MustFn("core/task", "schedulerState.resourceOffers")
+	if fn == nil {
+		return
+	}
+	isDeclineMap := func(t types.Type) bool {
+		m, ok := t.Underlying().(*types.Map)
+		if !ok || !strings.HasSuffix(m.Key().String(), "mesos-go/api/v1/lib.OfferID") {
+			return false
+		}
+		st, ok := m.Elem().Underlying().(*types.Struct)
+		return ok && st.NumFields() == 0
+	}
+	// (a) who deletes from a map keyed by OfferID
+	delOK := true
+	nDel := 0
+	for _, s := range c.SitesOf(func(n string) bool { return n == "builtin.delete" }) {
+		if !isDeclineMap(s.Call.Common().Args[0].Type()) {
+			continue
+		}
+		nDel++
+		if c.RelName(s.Fn) != "core/task.makeTaskForMesosResources" {
+			delOK = false
+			c.Ob("delete-from-decline-set|"+c.RelName(an.OutermostParent(s.Fn)), s.Call.Pos(), false, "an offer is removed from the decline set outside the task builder: an offer no task was built for may be left neither used nor declined")
+		}
+	}
+	if nDel > 0 {
+		c.Subject()
+	}
+	if delOK {
+		c.Ob("delete-from-decline-set", fn.Pos(), nDel > 0, "offers leave the decline set only in makeTaskForMesosResources (%d delete sites)", nDel)
+	}
+	// (b)+(c) in the handler closure(s)
+	for _, f := range an.WithAnon(fn) {
+		var mk *ssa.MakeMap
+		an.Instrs(f, func(in ssa.Instruction) {
+			if m, ok := in.(*ssa.MakeMap); ok && isDeclineMap(m.Type()) {
+				mk = m
+			}
+		})
+		if mk == nil {
+			continue
+		}
+		c.Mark(f)
+		c.Subject()
+		// (b) filled in a loop from the offers
+		filled := false
+		for _, al := range an.MapAliases(mk) {
+			for _, r := range *al.Referrers() {
+				if mu, ok := r.(*ssa.MapUpdate); ok && an.InLoop(mu.Block()) {
+					for _, l := range an.BackSlice(mu.Key, an.SliceOpts{}) {
+						if strings.Contains(l.Path, "Offer") || strings.Contains(an.TypeShort(l.Val.Type()), "Offer") {
+							filled = true
+						}
+					}
+					// the fill loop must not be conditional on anything but its range
+				}
+			}
+		}
+		c.Ob("core/task.(*schedulerState).resourceOffers|decline-set-init", mk.Pos(), filled, "the decline set is initialised from every received offer")
+		// (c) the Decline call
+		var declCall *ssa.Call
+		for _, ci := range an.CallsSuffix(f, "scheduler/calls.Decline") {
+			declCall, _ = ci.(*ssa.Call)
+		}
+		if declCall == nil {
+			c.Ob("core/task.(*schedulerState).resourceOffers|decline-sent", mk.Pos(), false, "no calls.Decline built from the decline set")
+			continue
+		}
+		fromSet := false
+		for _, l := range an.BackSlice(declCall.Call.Args[0], an.SliceOpts{}) {
+			if l.Val == ssa.Value(mk) {
+				fromSet = true
+			}
+		}
+		// MakeMap is traversed, not a leaf; check syntactically that a Range over the map feeds the slice
+		if !fromSet {
+			for _, al := range an.MapAliases(mk) {
+				for _, r := range *al.Referrers() {
+					if _, ok := r.(*ssa.Range); ok {
+						fromSet = true
+					}
+				}
+			}
+		}
+		c.Ob("core/task.(*schedulerState).resourceOffers|decline-from-set", declCall.Pos(), fromSet, "the DECLINE call is built from the decline set")
+		// find the send of that call
+		var send ssa.CallInstruction
+		for _, ci := range an.CallsSuffix(f, "scheduler/calls.CallNoData") {
+			for _, l := range an.BackSlice(ci.Common().Args[2], an.SliceOpts{LeafCall: func(n string, cl *ssa.Call) bool { return cl == declCall }}) {
+				if l.Kind == "call" && l.Val == ssa.Value(declCall) {
+					send = ci
+				}
+			}
+		}
+		if send == nil {
+			c.Ob("core/task.(*schedulerState).resourceOffers|decline-sent", declCall.Pos(), false, "the DECLINE call is never sent")
+			continue
+		}
+		// guards: only emptiness of the decline set
+		extra := []string{}
+		for _, a := range an.Atoms(send.Block()) {
+			if isLenOfMapCmp(a, mk) {
+				continue
+			}
+			extra = append(extra, fmt.Sprintf("%s: %v %s %v (=%v)", c.PosStr(atomPos(a)), a.X, a.Op, a.Y, a.Val))
+		}
+		c.Ob("core/task.(*schedulerState).resourceOffers|decline-sent", send.Pos(), len(extra) == 0,
+			"sending DECLINE may depend only on the decline set being non-empty; extra conditions at %v", extra)
+	}
+}
+
+func atomPos(a an.Atom) token.Pos {
+	if in, ok := a.X.(ssa.Instruction); ok {
+		return in.Pos()
+	}
+	return token.NoPos
+}
+
+// isLenOfMapCmp: atom is len(<alias of mk>) >/!= 0.
+func isLenOfMapCmp(a an.Atom, mk *ssa.MakeMap) bool {
+	if a.Y == nil {
+		return false
+	}
+	isLen := func(v ssa.Value) bool {
+		// through phi-free copies: `n := len(m)`
+		call, ok := v.(*ssa.Call)
+		if !ok || an.CalleeName(&call.Call) != "builtin.len" {
+			return false
+		}
+		for _, al := range an.MapAliases(mk) {
+			if call.Call.Args[0] == al {
+				return true
+			}
+		}
+		return false
+	}
+	zero := func(v ssa.Value) bool { i, ok := an.ConstInt(v); return ok && i == 0 }
+	switch a.Op {
+	case token.GTR, token.NEQ:
+		return isLen(a.X) && zero(a.Y)
+	case token.LSS:
+		return isLen(a.Y) && zero(a.X)
+	}
+	return false
+}
+
+// r05eRole: workflow roles merge their own constraints over the parent's.
+func r05eRole(c *an.Ctx) {
+	fn := c.MustFn("core/workflow", "roleBase.getConstraints")
+	if fn == nil {
+		return
+	}
+	for _, ci := range an.CallsNamed(fn, "(core/task/constraint.Constraints).MergeParent") {
+		c.Subject()
+		a := ci.Common().Args
+		// receiver: derives from r.Constraints (own field of the receiver); argument: result of getConstraints on the parent role
+		own := false
+		for _, l := range an.BackSlice(a[0], an.SliceOpts{LeafCall: func(n string, _ *ssa.Call) bool { return strings.HasSuffix(n, ").getConstraints") }}) {
+			if (l.Kind == "field" || l.Kind == "via") && strings.HasSuffix(l.Path, "roleBase.Constraints") {
+				own = true
+			}
+			if l.Kind == "call" {
+				own = false
+				break
+			}
+		}
+		par := false
+		for _, l := range an.BackSlice(a[1], an.SliceOpts{LeafCall: func(n string, _ *ssa.Call) bool { return strings.HasSuffix(n, ").GetParentRole") }}) {
+			if l.Kind == "call" {
+				par = true
+			}
+			if (l.Kind == "field" || l.Kind == "via") && strings.HasSuffix(l.Path, "roleBase.Constraints") {
+				par = false
+				break
+			}
+		}
+		c.Ob("core/workflow.(*roleBase).getConstraints|MergeParent", ci.Pos(), own && par,
+			"the role's own constraints must be the receiver and the parent role's the argument (own-as-receiver=%v parent-as-argument=%v)", own, par)
+	}
 }
